@@ -135,7 +135,8 @@ impl<'a, Version: VersionTrait, Purpose: PurposeTrait> Paseto<'a, Version, Purpo
 
     /* BEGIN PRIVATE FUNCTIONS */
     pub(crate) fn format_token(&self, encrypted_payload: &str) -> String {
-        let footer = self.footer.map(|f| f.encode());
+        //an empty footer is the same as no footer: no (empty) footer segment is appended
+        let footer = self.footer.filter(|f| !f.is_empty()).map(|f| f.encode());
         match footer {
             Some(f) => format!("{}{}.{}", self.header, encrypted_payload, f),
             None => format!("{}{}", self.header, encrypted_payload),
